@@ -103,6 +103,7 @@ theorem Inv.step [DecidableEq V] {t0 : Tbl Loc V} {s : St V} (h : Inv t0 s) (e :
           exact ⟨h.ctl.enactEnd (by omega), h.tbl.enactEnd c3 (by omega), h.log⟩
         · simp [c3] at hc
   | tableSync t => exact ⟨h.ctl, h.tbl.tableSync t, h.log⟩
+  | tableDelete t => exact ⟨h.ctl, h.tbl.tableSync t, h.log⟩
   | logTruncate f => exact h.dropLog f hc
   | logDelete f => exact h.dropLog f hc
   | logReuse f => exact h.dropLog f hc
